@@ -114,6 +114,10 @@ class SemVer:
                             vec.append(0)
                         vec.append(-1)
                         pre = True
+                        if ident.isascii() and ident.isdigit():
+                            # SemVer: an all-digit identifier is numeric
+                            vec.append(int(ident))
+                            continue
                     vec.append(ident)
                 else:
                     break  # +build metadata: discard the rest
